@@ -116,3 +116,41 @@ func lemma_C08_PrfPlus_history(key, s, junk []byte, n int) {
 	verifAssume(n >= 0 && n <= 1<<20)
 	_ = lib.PrfPlus(h, s, n)
 }
+
+// C17: deriving a Child SA changes nothing in the IKE SA object but the buffered input
+// of Prf_d, and a derivation after any history gives the keys a fresh SA gives (the
+// assertions of verifC08 above start from arbitrary buffered input and derive twice)
+//
+//verif:bytes
+//verif:maxlen skd=1099511627776 nonce=1099511627776 junk=1099511627776
+//verif:summary security/lib.PrfPlus
+func lemma_C17_child_derivation(prfSel, encrSel, integSel uint8, skd, junk, nonce []byte) {
+	sa := new(IKESAKey)
+	var newPrf func() hash.Hash
+	sa.PrfInfo, newPrf, _ = verifPrfAlg(prfSel)
+	sa.SK_d = skd
+	sa.Prf_d = sa.PrfInfo.Init(skd)
+	sa.Prf_d.Write(junk)
+	pd, pinfo := sa.Prf_d, sa.PrfInfo
+	k0 := append([]byte{}, skd...)
+	n0 := append([]byte{}, nonce...)
+	c := new(ChildSAKey)
+	var le, la int
+	c.EncrKInfo, le = verifEncrK(encrSel)
+	c.IntegKInfo, la = verifIntegK(integSel)
+	err := c.GenerateKeyForChildSA(sa, nonce)
+	verifAssert(err == nil && sa.Prf_d == pd && sa.PrfInfo == pinfo && verifSameSlice(sa.SK_d, skd) && verifBytesEq(sa.SK_d, k0), "C17/child-derivation-leaves-the-ike-sa-as-it-was")
+	ei, ai, er, ar := verifChildKeys(newPrf, k0, n0, le, la)
+	verifAssert(verifBytesEq(c.InitiatorToResponderEncryptionKey, ei) && verifBytesEq(c.InitiatorToResponderIntegrityKey, ai) && verifBytesEq(c.ResponderToInitiatorEncryptionKey, er) && verifBytesEq(c.ResponderToInitiatorIntegrityKey, ar), "C17/derived-keys-after-any-history-are-those-of-a-fresh-sa")
+}
+
+// the per-iteration contract of PrfPlus is an obligation of C17 as well
+//
+//verif:bytes
+//verif:maxlen key=1099511627776 s=1099511627776
+func lemma_C17_PrfPlus_history(key, s, junk []byte, n int) {
+	h := hmac.New(sha256.New, key)
+	h.Write(junk)
+	verifAssume(n >= 0 && n <= 1<<20)
+	_ = lib.PrfPlus(h, s, n)
+}
